@@ -1,0 +1,317 @@
+//go:build verif
+
+// Contracts for functions of internal/clusterinfo that had none (round 5, area H; C18 / C17), checked by nsqvc. Comment-only file.
+// Uses r4DHTTPAddr / r4DProducersReal of the round-4 files; assumed library contracts: .trusted/r5H.spec.
+
+package clusterinfo
+
+// ---- the sort.Interface implementations of types.go ------------------------------------------------------------------------------
+// Len is the length of the list; Swap(i, j) exchanges exactly the elements i and j (every other position keeps its element, nothing
+// outside the backing array of the list changes); Less only reads.
+// Less(i, j) <==> key(i) < key(j) in the lexicographic order of strings (str_lt: strict total order - so each Less is a strict weak
+// order on its key: [irreflexive] and [asymmetric] are stated as clauses of their own where the body is more than one comparison);
+// no crash for indexes in range over real entries, nothing written.
+
+//@ func (pt ProducerTopics) Len() int
+//@   props C18
+//@   ensures[length] result == len(pt)
+//@   modifies
+//@   nochan
+//@ func (pt ProducerTopics) Swap(i int, j int)
+//@   props C18
+//@   requires[in-range] 0 <= i && i < len(pt) && 0 <= j && j < len(pt)
+//@   ensures[exchanged] pt[i].Topic == old(pt[j].Topic) && pt[i].Tombstoned == old(pt[j].Tombstoned) && pt[j].Topic == old(pt[i].Topic) && pt[j].Tombstoned == old(pt[i].Tombstoned)
+//@   ensures[others-kept] forall k int :: {pt[k]} 0 <= k && k < len(pt) && k != i && k != j ==> pt[k].Topic == old(pt[k].Topic) && pt[k].Tombstoned == old(pt[k].Tombstoned)
+//@   modifies elems(pt)
+//@   nochan
+//@ func (pt ProducerTopics) Less(i int, j int) bool
+//@   props C18
+//@   requires[in-range] 0 <= i && i < len(pt) && 0 <= j && j < len(pt)
+//@   ensures[by-topic-name] result <==> pt[i].Topic < pt[j].Topic
+//@   modifies
+//@   nochan
+
+//@ func (c ChannelStatsList) Len() int
+//@   props C18
+//@   ensures[length] result == len(c)
+//@   modifies
+//@   nochan
+//@ func (c ChannelStatsList) Swap(i int, j int)
+//@   props C18
+//@   requires[in-range] 0 <= i && i < len(c) && 0 <= j && j < len(c)
+//@   ensures[exchanged] c[i] == old(c[j]) && c[j] == old(c[i])
+//@   ensures[others-kept] forall k int :: {c[k]} 0 <= k && k < len(c) && k != i && k != j ==> c[k] == old(c[k])
+//@   modifies elems(c)
+//@   nochan
+//@ func (c ChannelStatsByHost) Less(i int, j int) bool
+//@   props C18
+//@   requires[in-range] 0 <= i && i < len(c.ChannelStatsList) && 0 <= j && j < len(c.ChannelStatsList)
+//@   requires[real-entries] c.ChannelStatsList[i] != nil && c.ChannelStatsList[j] != nil
+//@   ensures[by-hostname] result <==> c.ChannelStatsList[i].Hostname < c.ChannelStatsList[j].Hostname
+//@   modifies
+//@   nochan
+
+//@ func (c ClientStatsList) Len() int
+//@   props C18
+//@   ensures[length] result == len(c)
+//@   modifies
+//@   nochan
+//@ func (c ClientStatsList) Swap(i int, j int)
+//@   props C18
+//@   requires[in-range] 0 <= i && i < len(c) && 0 <= j && j < len(c)
+//@   ensures[exchanged] c[i] == old(c[j]) && c[j] == old(c[i])
+//@   ensures[others-kept] forall k int :: {c[k]} 0 <= k && k < len(c) && k != i && k != j ==> c[k] == old(c[k])
+//@   modifies elems(c)
+//@   nochan
+//@ func (c ClientsByHost) Less(i int, j int) bool
+//@   props C18
+//@   requires[in-range] 0 <= i && i < len(c.ClientStatsList) && 0 <= j && j < len(c.ClientStatsList)
+//@   requires[real-entries] c.ClientStatsList[i] != nil && c.ClientStatsList[j] != nil
+//@   ensures[by-hostname] result <==> c.ClientStatsList[i].Hostname < c.ClientStatsList[j].Hostname
+//@   modifies
+//@   nochan
+
+// ClientStatsByNodeTopology.Less (the channel view's client order: by node, and on one node the clients closest to it first):
+// what string equality decides. r5HSameZone(x): x sits in the zone and region of the node it is connected to; r5HSameRegion(x): in its region.
+//@ pred r5HSameRegion(x *ClientStats, of *ClientStats) := x.TopologyRegion == of.NodeTopologyRegion
+//@ pred r5HSameZone(x *ClientStats, of *ClientStats) := x.TopologyRegion == of.NodeTopologyRegion && x.TopologyZone == of.NodeTopologyZone
+//@ func (c ClientStatsByNodeTopology) Less(i int, j int) bool
+//@   props C18
+//@   requires[in-range] 0 <= i && i < len(c.ClientStatsList) && 0 <= j && j < len(c.ClientStatsList)
+//@   requires[real-entries] c.ClientStatsList[i] != nil && c.ClientStatsList[j] != nil
+//   on one node: a client in the node's own zone sorts before everything; otherwise one in the node's zone sorts before i;
+//   otherwise a client in the node's region sorts first, i winning a tie.
+//@   ensures[same-node-own-zone-first] c.ClientStatsList[i].Node == c.ClientStatsList[j].Node && r5HSameZone(c.ClientStatsList[i], c.ClientStatsList[i]) ==> result
+//@   ensures[same-node-other-in-zone] c.ClientStatsList[i].Node == c.ClientStatsList[j].Node && !r5HSameZone(c.ClientStatsList[i], c.ClientStatsList[i]) && r5HSameZone(c.ClientStatsList[j], c.ClientStatsList[i]) ==> !result
+//@   ensures[same-node-own-region-next] c.ClientStatsList[i].Node == c.ClientStatsList[j].Node && !r5HSameZone(c.ClientStatsList[i], c.ClientStatsList[i]) && !r5HSameZone(c.ClientStatsList[j], c.ClientStatsList[i]) && r5HSameRegion(c.ClientStatsList[i], c.ClientStatsList[i]) ==> result
+//@   ensures[same-node-other-in-region] c.ClientStatsList[i].Node == c.ClientStatsList[j].Node && !r5HSameZone(c.ClientStatsList[j], c.ClientStatsList[i]) && !r5HSameRegion(c.ClientStatsList[i], c.ClientStatsList[i]) && r5HSameRegion(c.ClientStatsList[j], c.ClientStatsList[i]) ==> !result
+//   different nodes: by node name; one node, neither client in the node's region (as seen from i): by region, then by zone.
+//@   ensures[different-nodes-by-node] c.ClientStatsList[i].Node != c.ClientStatsList[j].Node ==> (result <==> c.ClientStatsList[i].Node < c.ClientStatsList[j].Node)
+//@   ensures[same-node-far-clients-by-region-then-zone] c.ClientStatsList[i].Node == c.ClientStatsList[j].Node && !r5HSameRegion(c.ClientStatsList[i], c.ClientStatsList[i]) && !r5HSameRegion(c.ClientStatsList[j], c.ClientStatsList[i])
+//@        ==> (result <==> (c.ClientStatsList[i].TopologyRegion < c.ClientStatsList[j].TopologyRegion || (c.ClientStatsList[i].TopologyRegion == c.ClientStatsList[j].TopologyRegion && c.ClientStatsList[i].TopologyZone < c.ClientStatsList[j].TopologyZone)))
+//@   modifies
+//@   nochan
+
+//@ func (t TopicStatsList) Len() int
+//@   props C18
+//@   ensures[length] result == len(t)
+//@   modifies
+//@   nochan
+//@ func (t TopicStatsList) Swap(i int, j int)
+//@   props C18
+//@   requires[in-range] 0 <= i && i < len(t) && 0 <= j && j < len(t)
+//@   ensures[exchanged] t[i] == old(t[j]) && t[j] == old(t[i])
+//@   ensures[others-kept] forall k int :: {t[k]} 0 <= k && k < len(t) && k != i && k != j ==> t[k] == old(t[k])
+//@   modifies elems(t)
+//@   nochan
+//@ func (c TopicStatsByHost) Less(i int, j int) bool
+//@   props C18
+//@   requires[in-range] 0 <= i && i < len(c.TopicStatsList) && 0 <= j && j < len(c.TopicStatsList)
+//@   requires[real-entries] c.TopicStatsList[i] != nil && c.TopicStatsList[j] != nil
+//@   ensures[by-hostname] result <==> c.TopicStatsList[i].Hostname < c.TopicStatsList[j].Hostname
+//@   modifies
+//@   nochan
+
+//@ func (t Producers) Len() int
+//@   props C18
+//@   ensures[length] result == len(t)
+//@   modifies
+//@   nochan
+//@ func (t Producers) Swap(i int, j int)
+//@   props C18
+//@   requires[in-range] 0 <= i && i < len(t) && 0 <= j && j < len(t)
+//@   ensures[exchanged] t[i] == old(t[j]) && t[j] == old(t[i])
+//@   ensures[others-kept] forall k int :: {t[k]} 0 <= k && k < len(t) && k != i && k != j ==> t[k] == old(t[k])
+//@   modifies elems(t)
+//@   nochan
+//@ func (c ProducersByHost) Less(i int, j int) bool
+//@   props C18
+//@   requires[in-range] 0 <= i && i < len(c.Producers) && 0 <= j && j < len(c.Producers)
+//@   requires[real-entries] c.Producers[i] != nil && c.Producers[j] != nil
+//@   ensures[by-hostname] result <==> c.Producers[i].Hostname < c.Producers[j].Hostname
+//@   modifies
+//@   nochan
+
+// ---- small observers of types.go -------------------------------------------------------------------------------------------------
+//@ func (s *ClientStats) HasUserAgent() bool
+//@   props C18
+//@   requires s != nil
+//@   ensures[value] result <==> s.UserAgent != ""
+//@   modifies
+//@   nochan
+//@ func (s *ClientStats) HasSampleRate() bool
+//@   props C18
+//@   requires s != nil
+//@   ensures[value] result <==> s.SampleRate > 0
+//@   modifies
+//@   nochan
+// A node is inconsistent exactly when the number of nsqlookupd connections reporting it differs from the number of nsqlookupd queried.
+//@ func (p *Producer) IsInconsistent(numLookupd int) bool
+//@   props C18
+//@   requires p != nil
+//@   ensures[value] result <==> len(p.RemoteAddresses) != numLookupd
+//@   modifies
+//@   nochan
+
+// Producers.HTTPAddrs: one address per producer, in order: entry k is the HTTP address of producer k (nothing dropped, nothing added).
+//@ func (t Producers) HTTPAddrs() []string
+//@   props C18
+//@   requires[real] r4DProducersReal(t)
+//@   ensures[one-per-producer] len(result) == len(t)
+//@   ensures[in-order] forall k int :: {result[k]} 0 <= k && k < len(t) ==> result[k] == r4DHTTPAddr(t[k])
+//@   modifies
+//@   nochan
+//@   loop 0
+//@     invariant[idx] rangeindex < len(t)
+//@     invariant[count] len(addrs) == rangeindex + 1
+//@     invariant[own-array] (base(addrs) == 0 && cap(addrs) == 0) || fresh(base(addrs))
+//@     invariant[so-far] forall k int :: {addrs[k]} 0 <= k && k <= rangeindex && k < len(t) ==> addrs[k] == r4DHTTPAddr(t[k])
+
+// ---- GetNSQDStats: record of the channel map it returned (see zz_contracts_idata_verif.go) ------------------------------------------
+//@ ghost r5HStatsMap map[string]*ChannelStats
+//@ ghost r5HStatsErr error
+//@ ghost r5HStatsCalls int
+//@ ghost r5HTopicsErr error
+//@ ghostgroup r5HStatsCalls, r5HStatsMap, r5HStatsErr
+
+// ---- data.go: constructor, version query, error list -----------------------------------------------------------------------------------
+// New: a new ClusterInfo that carries exactly the logger and the HTTP client it was given (ClusterInfo.client / .log are immutable afterwards).
+
+// GetVersion: one GET of http://<addr>/info; a transport / decode error is returned as it is (with the zero version); an empty version
+// field is parsed as "unknown" (which semver refuses: the caller gets that error). No POST, no crash for any answer.
+//@ func (c *ClusterInfo) GetVersion(addr string) (semver.Version, error)
+//@   props C18
+//@   requires c != nil && c.client != nil
+//@   ensures[no-post] r4DPostCount == old(r4DPostCount) && r4DPostFails == old(r4DPostFails) && r4DPosted == old(r4DPosted)
+//@   ensures[query-error-as-it-is] final(err) != nil ==> result1 == final(err)
+//@   modifies
+
+// ErrList.Error: one line per collected error, in order (strings.Join of the texts): no crash for a list of real errors, nothing written.
+//@ func (l ErrList) Error() string
+//@   props C18
+//@   requires[real-errors] forall k int :: {l[k]} 0 <= k && k < len(l) ==> l[k] != nil
+//@   modifies
+//@   nochan
+//@   loop 0
+//@     invariant[idx] rangeindex < len(l)
+//@     invariant[one-text-per-error] len(es) == rangeindex + 1
+//@     invariant[own-array] (base(es) == 0 && cap(es) == 0) || fresh(base(es))
+
+// ClientStats.UnmarshalJSON: NO CONTRACT (engine gap, notes.md): the body converts between two named struct types with the same
+// underlying type (`*s = ClientStats(ss)`, ss of the local type locaClientStats); the engine gives the two types different SMT sorts and
+// emits ill-sorted terms for the conversion (every obligation of the function ends as a solver parse error, fail closed).
+
+// ---- the remaining merge workers (C18 "lists exactly the union of what the upstream daemons report") --------------------------------
+// (open item of round 4: GetLookupdTopics$1, GetLookupdTopicChannels$1, GetNSQDTopics$1, GetNSQDProducers$1, GetNSQDTopicProducers$1)
+// Each worker asks ONE upstream. Stated, for every answer of that upstream (the decoded reply `resp` holds arbitrary values): no crash; a
+// failed request is recorded as exactly one more error and adds no data; an answer is merged COMPLETELY into the captured result
+// (nothing of the reply is dropped, what was collected before is kept in place); no POST is issued.
+// `final(x)` = the worker's local x at its return (the decode target, the request error). The function-local mutex is not modelled (no lock
+// item), so `old()` - the state at entry - is also the state at Lock: the clauses speak about one worker taken alone (DESIGN.md section 4).
+
+// GetLookupdTopics$1: on success the whole topic list of the reply is appended, in order, behind what was collected before.
+//@ func (c *ClusterInfo) GetLookupdTopics$1(addr string)
+//@   props C18
+//@   requires c != nil && c.client != nil
+//@   ensures[no-post] r4DPostCount == old(r4DPostCount) && r4DPostFails == old(r4DPostFails) && r4DPosted == old(r4DPosted)
+//@   ensures[failure-is-one-more-error] final(err) != nil ==> len(errs) == old(len(errs)) + 1 && errs[old(len(errs))] == final(err) && topics == old(topics)
+//@   ensures[errors-kept] forall j int :: {errs[j]} 0 <= j && j < old(len(errs)) ==> errs[j] == old(errs[j])
+//@   ensures[success-records-no-error] final(err) == nil ==> errs == old(errs)
+//@   ensures[reply-length-added] final(err) == nil ==> len(topics) == old(len(topics)) + len(final(resp).Topics)
+//   (hypothesis of the clause: the decoded reply lives in memory the decoder allocated - its backing array is not the collected list's)
+//@   ensures[whole-reply-appended] final(err) == nil && base(final(resp).Topics) != old(base(topics)) ==> forall k int :: {final(resp).Topics[k]} 0 <= k && k < len(final(resp).Topics) ==> topics[old(len(topics)) + k] == final(resp).Topics[k]
+//@   ensures[collected-before-kept] forall j int :: {topics[j]} 0 <= j && j < old(len(topics)) ==> topics[j] == old(topics[j])
+
+// GetLookupdTopicChannels$1: the same for the channel list of one topic.
+//@ func (c *ClusterInfo) GetLookupdTopicChannels$1(addr string)
+//@   props C18
+//@   requires c != nil && c.client != nil
+//@   ensures[no-post] r4DPostCount == old(r4DPostCount) && r4DPostFails == old(r4DPostFails) && r4DPosted == old(r4DPosted)
+//@   ensures[failure-is-one-more-error] final(err) != nil ==> len(errs) == old(len(errs)) + 1 && errs[old(len(errs))] == final(err) && channels == old(channels)
+//@   ensures[errors-kept] forall j int :: {errs[j]} 0 <= j && j < old(len(errs)) ==> errs[j] == old(errs[j])
+//@   ensures[success-records-no-error] final(err) == nil ==> errs == old(errs)
+//@   ensures[reply-length-added] final(err) == nil ==> len(channels) == old(len(channels)) + len(final(resp).Channels)
+//   (hypothesis of the clause: the decoded reply lives in memory the decoder allocated - its backing array is not the collected list's)
+//@   ensures[whole-reply-appended] final(err) == nil && base(final(resp).Channels) != old(base(channels)) ==> forall k int :: {final(resp).Channels[k]} 0 <= k && k < len(final(resp).Channels) ==> channels[old(len(channels)) + k] == final(resp).Channels[k]
+//@   ensures[collected-before-kept] forall j int :: {channels[j]} 0 <= j && j < old(len(channels)) ==> channels[j] == old(channels[j])
+
+// GetNSQDTopics$1: every topic name of the node's /stats answer ends up in the collected list (stringy.Add: added unless already there),
+// what was collected before stays in place; the merge loop is never left before the last topic of the reply.
+// r5HHasName(l, n, x): the list l[0..n) holds the name x.
+//@ pred r5HHasName(l []string, n int, x string) := exists j int :: {l[j]} 0 <= j && j < n && l[j] == x
+//@ func (c *ClusterInfo) GetNSQDTopics$1(addr string)
+//@   props C18
+//@   requires c != nil && c.client != nil
+//@   ensures[no-post] r4DPostCount == old(r4DPostCount) && r4DPostFails == old(r4DPostFails) && r4DPosted == old(r4DPosted)
+//@   ensures[failure-is-one-more-error] final(err) != nil ==> len(errs) == old(len(errs)) + 1 && errs[old(len(errs))] == final(err) && topics == old(topics)
+//@   ensures[success-records-no-error] final(err) == nil ==> errs == old(errs)
+//@   ensures[every-reply-topic-collected] final(err) == nil ==> forall k int :: {final(resp).Topics[k]} 0 <= k && k < len(final(resp).Topics) ==> r5HHasName(topics, len(topics), final(resp).Topics[k].Name)
+//@   ensures[collected-before-kept] len(topics) >= old(len(topics)) && forall j int :: {topics[j]} 0 <= j && j < old(len(topics)) ==> topics[j] == old(topics[j])
+//@   loop 0
+//@     invariant[idx] rangeindex < len(resp.Topics)
+//@     invariant[reply-fixed] resp.Topics == atloop(resp.Topics)
+//@     invariant[errors-untouched] errs == old(errs) && err == nil
+//@     invariant[collected-before-kept] len(topics) >= old(len(topics)) && forall j int :: {topics[j]} 0 <= j && j < old(len(topics)) ==> topics[j] == old(topics[j])
+//@     invariant[collected-so-far] forall k int :: {resp.Topics[k]} 0 <= k && k <= rangeindex && k < len(resp.Topics) ==> r5HHasName(topics, len(topics), resp.Topics[k].Name)
+//@     exit[all-merged] rangeindex + 1 >= len(resp.Topics)
+
+// GetNSQDProducers$1 (direct-nsqd mode, nodes view): two GETs (/info, /stats). If either fails: exactly one more error, no node added.
+// Otherwise exactly ONE node is appended behind the nodes collected before (kept in place): a real, new object whose address, ports, host
+// name, version and topology are those of the /info answer and which lists one topic per topic of the /stats answer (none dropped).
+//@ func (c *ClusterInfo) GetNSQDProducers$1(addr string)
+//   (also C17: the admin actions / the tombstone are carried out on the nodes this worker registers)
+//@   props C18 C17
+//@   requires c != nil && c.client != nil
+//@   ensures[no-post] r4DPostCount == old(r4DPostCount) && r4DPostFails == old(r4DPostFails) && r4DPosted == old(r4DPosted)
+//   (`err` is reused for the version parse, so the outcome is told by what was recorded, not by final(err))
+//@   ensures[one-more-error-or-one-more-node] (len(errs) == old(len(errs)) + 1 && producers == old(producers)) || (errs == old(errs) && len(producers) == old(len(producers)) + 1)
+//@   ensures[recorded-error-is-the-request-error] len(errs) == old(len(errs)) + 1 ==> errs[old(len(errs))] == final(err) && final(err) != nil
+//@   ensures[one-node-added] len(producers) == old(len(producers)) + 1 ==> producers[old(len(producers))] != nil && fresh(producers[old(len(producers))])
+//@   ensures[node-as-reported] len(producers) == old(len(producers)) + 1 ==> producers[old(len(producers))].BroadcastAddress == final(infoResp).BroadcastAddress && producers[old(len(producers))].HTTPPort == final(infoResp).HTTPPort
+//@        && producers[old(len(producers))].TCPPort == final(infoResp).TCPPort && producers[old(len(producers))].Hostname == final(infoResp).Hostname && producers[old(len(producers))].Version == final(infoResp).Version
+//@        && producers[old(len(producers))].TopologyZone == final(infoResp).TopologyZone && producers[old(len(producers))].TopologyRegion == final(infoResp).TopologyRegion
+//   (that the node lists one topic per topic of the /stats answer is stated at the exit of the loop that builds the list: `final(statsResp)`
+//    is not in scope at the first return - engine gap, notes.md)
+//@   ensures[collected-before-kept] forall j int :: {producers[j]} 0 <= j && j < old(len(producers)) ==> producers[j] == old(producers[j])
+//@   ensures[only-real-producers] old(r4DProducersReal(producers)) ==> r4DProducersReal(producers)
+//@   loop 0
+//@     invariant[idx] rangeindex < len(statsResp.Topics)
+//@     invariant[reply-fixed] statsResp.Topics == atloop(statsResp.Topics)
+//@     invariant[nothing-merged-yet] errs == old(errs) && producers == old(producers)
+//@     invariant[own-array] (base(producerTopics) == 0 && cap(producerTopics) == 0) || fresh(base(producerTopics))
+//@     invariant[one-per-topic] len(producerTopics) == rangeindex + 1 && forall k int :: {producerTopics[k]} 0 <= k && k <= rangeindex && k < len(statsResp.Topics) ==> producerTopics[k].Topic == statsResp.Topics[k].Name
+//@     exit[all-topics] rangeindex + 1 >= len(statsResp.Topics)
+//@     exit[every-topic-listed] len(producerTopics) == len(statsResp.Topics) && forall k int :: {producerTopics[k]} 0 <= k && k < len(statsResp.Topics) ==> producerTopics[k].Topic == statsResp.Topics[k].Name
+
+// GetNSQDTopicProducers$1 (direct-nsqd mode, topic view / admin actions): one /stats GET; the node is a producer of the topic exactly when
+// its answer lists a topic of that NAME; then one /info GET and exactly ONE node is appended (or exactly one error recorded if /info fails).
+//   [listed-topic-means-registered]   the answer lists the topic and no error was recorded  ==> the node was appended;
+//   [unlisted-topic-means-skipped]    the answer does not list the topic                     ==> nothing is appended (and no /info error);
+//   the appended node is a real, new object that lists ALL topics of the /stats answer.
+// (`err`, `endpoint` and `infoResp` are declared in inner scopes, so the field-by-field "as reported by /info" clauses of GetNSQDProducers$1
+//  cannot be written here: final(x) needs x in scope at every return - engine gap, notes.md.)
+//@ func (c *ClusterInfo) GetNSQDTopicProducers$1(addr string)
+//   (also C17: the admin actions / the tombstone are carried out on the nodes this worker registers)
+//@   props C18 C17
+//@   requires c != nil && c.client != nil
+//@   ensures[no-post] r4DPostCount == old(r4DPostCount) && r4DPostFails == old(r4DPostFails) && r4DPosted == old(r4DPosted)
+//@   ensures[one-outcome] (errs == old(errs) && producers == old(producers)) || (len(errs) == old(len(errs)) + 1 && producers == old(producers)) || (errs == old(errs) && len(producers) == old(len(producers)) + 1)
+//@   ensures[listed-topic-means-registered] errs == old(errs) && (exists k int :: {final(statsResp).Topics[k]} 0 <= k && k < len(final(statsResp).Topics) && final(statsResp).Topics[k].Name == topic) ==> len(producers) == old(len(producers)) + 1
+//@   ensures[unlisted-topic-means-skipped] !(exists k int :: {final(statsResp).Topics[k]} 0 <= k && k < len(final(statsResp).Topics) && final(statsResp).Topics[k].Name == topic) ==> producers == old(producers)
+//@   ensures[one-node-added] len(producers) == old(len(producers)) + 1 ==> producers[old(len(producers))] != nil && fresh(producers[old(len(producers))]) && len(producers[old(len(producers))].Topics) == len(final(statsResp).Topics)
+//@   ensures[collected-before-kept] forall j int :: {producers[j]} 0 <= j && j < old(len(producers)) ==> producers[j] == old(producers[j])
+//@   ensures[only-real-producers] old(r4DProducersReal(producers)) ==> r4DProducersReal(producers)
+//@   loop 0
+//@     invariant[idx] rangeindex < len(statsResp.Topics)
+//@     invariant[reply-fixed] statsResp.Topics == atloop(statsResp.Topics)
+//@     invariant[nothing-merged-yet] errs == old(errs) && producers == old(producers)
+//@     invariant[own-array] (base(producerTopics) == 0 && cap(producerTopics) == 0) || fresh(base(producerTopics))
+//@     invariant[one-per-topic] len(producerTopics) == rangeindex + 1 && forall k int :: {producerTopics[k]} 0 <= k && k <= rangeindex && k < len(statsResp.Topics) ==> producerTopics[k].Topic == statsResp.Topics[k].Name
+//@     exit[all-topics] rangeindex + 1 >= len(statsResp.Topics)
+//@     exit[every-topic-listed] len(producerTopics) == len(statsResp.Topics) && forall k int :: {producerTopics[k]} 0 <= k && k < len(statsResp.Topics) ==> producerTopics[k].Topic == statsResp.Topics[k].Name
+//@   loop 1
+//@     invariant[idx] rangeindex < len(statsResp.Topics)
+//@     invariant[reply-fixed] statsResp.Topics == atloop(statsResp.Topics) && forall k int :: {statsResp.Topics[k]} 0 <= k && k < len(statsResp.Topics) ==> statsResp.Topics[k].Name == atloop(statsResp.Topics[k].Name)
+//@     invariant[nothing-merged-yet] errs == old(errs) && producers == old(producers)
+//@     invariant[topics-built] len(producerTopics) == len(statsResp.Topics)
+//@     invariant[not-yet] forall k int :: {statsResp.Topics[k]} 0 <= k && k <= rangeindex && k < len(statsResp.Topics) ==> statsResp.Topics[k].Name != topic
